@@ -375,7 +375,9 @@ def main(prop_name, tier="quick", seed=0, replay=None, ncases=None, jobs=None):
                 broken.append(("extract", msg))
         except Exception as e:  # noqa: BLE001
             broken.append(("extract", "source-derived table could not be regenerated: %s" % e))
-    ok, out, dt = leanside.build(("Hg", "hgdriver"))
+    # only this property's module (and the model driver): a broken obligation of another property
+    # (e.g. a regenerated table) must not raise an alarm here
+    ok, out, dt = leanside.build((prop.LEAN_MODULE, "hgdriver") if getattr(prop, "THEOREMS", []) else ("hgdriver",))
     if not ok:
         # infrastructure or a broken generated obligation
         errs = [ln for ln in out.split("\n") if "error" in ln][:10]
@@ -537,7 +539,7 @@ def main(prop_name, tier="quick", seed=0, replay=None, ncases=None, jobs=None):
     cov = {
         "obligations": len(obligations),
         "discharged": discharged,
-        "checker_cmd": "cd lean && lake build Hg hgdriver && lake env lean Audit/%s.lean  (#print axioms for every theorem listed)" % prop.LEAN_MODULE.split(".")[-1],
+        "checker_cmd": "cd lean && lake build %s hgdriver && lake env lean Audit/%s.lean  (#print axioms for every theorem listed)" % (prop.LEAN_MODULE, prop.LEAN_MODULE.split(".")[-1]),
         "trusted_base": TRUSTED_BASE + list(getattr(prop, "EXTRA_TRUST", [])),
         "theorems": {t: (r.get("axioms")) for t, r in obligations.items()},
         "evaluations": n_eval,
@@ -550,6 +552,7 @@ def main(prop_name, tier="quick", seed=0, replay=None, ncases=None, jobs=None):
         "distribution": stats_total,
         "known_findings_present": kf_present,
         "corpus_cases": len(corpus_cases),
+        "explanation": getattr(prop, "LEVEL_TEXT", ""),
     }
     ev = {
         "property_id": pid,
